@@ -1498,6 +1498,41 @@ func runRefMut(c *mon.Case) {
 		stable(c, "CountDifferences", reps, canon(alld, diffs), func() string { return canon(al.CountDifferences()) })
 	}
 	unchanged(c, "refmut", al, a)
+	// the reference (a row of the alignment) and another row edited in place at constant length: the counts
+	// follow the content at the time of the call (nothing may be remembered from the calls above)
+	if exact && (mode == "first" || mode == "chosen") && !c.Failed() {
+		cur := append([]string{}, rows...)
+		for k := r.Range(1, 3); k > 0; k-- {
+			i := refIdx
+			if k == 1 && len(cur) > 1 && r.Bool() {
+				i = r.Intn(len(cur))
+			}
+			j := r.Intn(L)
+			ch := a.base[r.Intn(len(a.base))]
+			if err := al.SetSequenceChar(i, j, ch); err != nil {
+				c.Failf("harness:edit", "SetSequenceChar(%d,%d): %v", i, j, err)
+				return
+			}
+			b := []byte(cur[i])
+			b[j] = ch
+			cur[i] = string(b)
+		}
+		newRef := cur[refIdx]
+		for i, s := range al.Sequences() {
+			num, err := s.NumMutationsComparedToReferenceSequence(a.alpha, refSeq)
+			lo, hi := refNumMutations(cur[i], newRef, a.protein)
+			if err != nil || num < lo || num > hi {
+				c.Failf("NumMutationsComparedToReferenceSequence:wrong-count-after-edit", "after in-place edits (rows were %q, are %q; reference row %d): seq %q against ref %q (%s): %d err=%v, definition gives %d..%d", rows, cur, refIdx, cur[i], newRef, a.Kind, num, err, lo, hi)
+				break
+			}
+			ms, err := s.ListMutationsComparedToReferenceSequence(a.alpha, refSeq, false)
+			if got := renderMuts(ms); err != nil || !matchMutations(got, refListMutations(cur[i], newRef, a.protein)) {
+				c.Failf("ListMutationsComparedToReferenceSequence:wrong-list-after-edit", "after in-place edits (rows were %q, are %q; reference row %d): seq %q against ref %q (%s): %v err=%v", rows, cur, refIdx, cur[i], newRef, a.Kind, got, err)
+				break
+			}
+		}
+		c.Count("refmut:after-edit")
+	}
 	if exact && mode != "wrong-length" && (nSubst+nIns+nDel > 0) {
 		c.NonTrivial("refmut", a.key(), refStr, mode)
 	}
@@ -1859,6 +1894,7 @@ func main() {
 	cliFloors()
 	mon.Floor("cli-multi:ok", 60)
 	mon.Floor("profile-file:more-than-100-sites", 500)
+	mon.Floor("refmut:after-edit", 1000)
 	mon.Main("C14", []mon.Sub{
 		{Name: "witness", Quick: 12, Thorough: 12, Run: runWitness},
 		{Name: "iupac", Quick: 512, Thorough: 512, Run: runIupac},
